@@ -213,10 +213,19 @@ package funcGen
 //@   assigns any []string
 //@   loop 1 invariant 0 <= rangeidx && rangeidx <= len(a) && len(args) == len(a) && fresh(args) && (forall i in 0..rangeidx :: args[i] != nil && fs(args[i]) == len(gc.am)+pending+i && cl(args[i]) == len(gc.cm)) && (pure ==> (forall i in 0..rangeidx :: pureFn(args[i])))
 
+// the entries of a map literal are compiled in order by a function literal passed to ListMap.Iter; the literal is
+// verified as the body of that iteration (callback clauses)
 //@ func (g *FunctionGenerator[V]) genCodeMap
-//@   trusted
+//@   property C01
+//@   safety C04
 //@   requires g != nil
+//@   requires[flags-sound C02] flagsSound(g)
+//@   requires[ast-present] forall i in 0..len(a) :: a[i].value != nil
+//@   ensures[each-compiled-for-context] result2 == nil ==> len(result0) == len(a) && fresh(result0) && (forall i in 0..len(a) :: result0[i].key == a[i].key && compiledFor(result0[i].value, gc))
+//@   ensures[purity-flag-sound C02] result2 == nil && result1 ==> (forall i in 0..len(a) :: pureFn(result0[i].value))
 //@   assigns any []string
+//@   callback "a.Iter(func" invariant err == nil && len(args) == cbidx && fresh(args) && (forall i in 0..cbidx :: args[i].key == a[i].key && compiledFor(args[i].value, gc)) && (pure ==> (forall i in 0..cbidx :: pureFn(args[i].value)))
+//@   callback "a.Iter(func" stopped err != nil
 
 //@ func (g *FunctionGenerator[V]) createClosureLiteralFunc
 //@   property C01
@@ -254,7 +263,7 @@ package funcGen
 //@   closure-spec "Func: closureFunc," as ParserFunc attr fs(self) = len(gc.am), cl(self) = len(gc.cm), pureFn(self) = true assume g.closureHandler != nil
 //@   closure-spec "List literal error" as ParserFunc attr fs(self) = len(gc.am), cl(self) = len(gc.cm), pureFn(self) = (forall i in 0..len(itemFuncs) :: pureFn(itemFuncs[i])) assume g.listHandler != nil
 //@   closure-spec "g.listHandler.AccessList(l, i)" as ParserFunc attr fs(self) = len(gc.am), cl(self) = len(gc.cm), pureFn(self) = (pureFn(indexFunc) && pureFn(listFunc)) assume g.listHandler != nil
-//@   closure-spec "Map literal error" as ParserFunc attr fs(self) = len(gc.am), cl(self) = len(gc.cm), pureFn(self) = pure trusted
+//@   closure-spec "Map literal error" as ParserFunc attr fs(self) = len(gc.am), cl(self) = len(gc.cm), pureFn(self) = (forall i in 0..len(itemsCode) :: pureFn(itemsCode[i].value)) assume g.mapHandler != nil
 //@   closure-spec "g.mapHandler.AccessMap(l, a.Key)" as ParserFunc attr fs(self) = len(gc.am), cl(self) = len(gc.cm), pureFn(self) = pureFn(mapFunc) assume g.mapHandler != nil
 //@   closure-spec "fun.Func(st.CreateFrame(len(argsFuncList)), nil)" as ParserFunc attr fs(self) = len(gc.am), cl(self) = len(gc.cm), pureFn(self) = (pureFn(fun.Func) && (forall i in 0..len(argsFuncList) :: pureFn(argsFuncList[i]))) assume staticOK(fun)
 //@   closure-spec "error in getting function" as ParserFunc attr fs(self) = len(gc.am), cl(self) = len(gc.cm), pureFn(self) = (pureFn(funcFunc) && (forall i in 0..len(argsFuncList) :: pureFn(argsFuncList[i])))
@@ -270,6 +279,10 @@ package funcGen
 //@   loop 1 invariant frameShape(st, old(st), 0) && 0 <= rangeidx
 //@   loop 1 invariant slotsNonNil(st)
 //@   loop 1 invariant callerSlotsKept(st, old(st))
+//@ closure FunctionGenerator.GenerateFunc anchor "Map literal error"
+//@   option body-only
+//@   callback "itemsCode.Iter(func" invariant innerError == nil && frameShape(st, old(st), 0) && slotsNonNil(st) && callerSlotsKept(st, old(st)) && (ref(st.storage.data) == old(ref(st.storage.data)) || calleefresh(st.storage.data)) && fresh(mapValues)
+//@   callback "itemsCode.Iter(func" stopped innerError != nil && frameShape(st, old(st), 0) && slotsNonNil(st) && callerSlotsKept(st, old(st))
 //@ closure FunctionGenerator.GenerateFunc anchor "List literal error"
 //@   option body-only
 //@   loop 1 invariant frameShape(st, old(st), 0) && 0 <= rangeidx && rangeidx <= len(itemFuncs) && len(itemValues) == len(itemFuncs) && fresh(itemValues)
